@@ -38,6 +38,17 @@ def gen_cases(tier, seed):
                     cases.append(dict(kind="random", method=name, direction=d, dense=dense, t0=t0, tf=t0 + d * L,
                                       nsteps=float(rng.uniform(25, 60)) * (12 if info["order"] <= 2 and not info["adaptive"] else 1),
                                       nev=nev, pseed=int(rng.integers(1 << 30)), cost=(2 if info["explicit"] else 14) * (1 + nev / 3.0)))
+    # derivative-dependent events on SMALL steps: the slope of the step interpolant carries rounding noise ~eps|y|/h, which is what the
+    # direction classification has to cope with; pairs of functions on one surface with opposite signs, one-sided directions
+    # (fixed-step methods keep the requested step; HeunEuler at rtol 1e-6 settles near 7e-4 by itself)
+    for name in (["RK4Solver", "HeunEulerSolver", "RK5Solver"] if tier == "quick" else ["RK4Solver", "HeunEulerSolver", "RK5Solver", "MidpointSolver", "HeunsSolver"]):
+        for d in (1, -1):
+            for h in ((2e-3, 7e-4) if tier == "quick" else (3e-3, 1.5e-3, 7e-4, 4e-4)):
+                for r in range(1 if tier == "quick" else 3):
+                    L = float(rng.uniform(0.8, 1.6))
+                    t0 = float(rng.uniform(-2, 2))
+                    cases.append(dict(kind="smallstep", method=name, direction=d, dense=bool(rng.random() < 0.5), t0=t0, tf=t0 + d * L, nsteps=L / h, fixed_h=h,
+                                      nev=2, pseed=int(rng.integers(1 << 30)), cost=4 * L / h / 500.0))
     for name in (["RK4Solver", "EulerSolver", "ABAs5o6HSolver"] if tier == "quick" else [n for n in M if M[n]["explicit"] and not M[n]["adaptive"]]):
         for d in (1, -1):
             for dense in (True, False):
@@ -60,6 +71,12 @@ def run_case(spec):
     if spec["kind"] == "boundary":
         for c in (0.5, 1.0, 1.5):
             evspecs.append({"kind": "time", "scale": float(10 ** rng.uniform(-3, 3)) * float(rng.choice([-1, 1])), "c": c, "direction": 0, "terminal": False})
+    elif spec["kind"] == "smallstep":
+        e1 = random_event_spec(rng, prob, t0, tf, dim, terminal=False, kinds=["dstate"])
+        e1["direction"] = int(rng.choice([-1, 1]))
+        e2 = dict(e1)
+        e2["scale"] = -3.7 * e1["scale"]
+        evspecs = [e1, e2]
     else:
         for _ in range(spec["nev"]):
             evspecs.append(random_event_spec(rng, prob, t0, tf, dim, terminal=False, kinds=["component", "linear", "time", "norm2", "dstate"]))
